@@ -1096,8 +1096,6 @@ def _case_fix(case):
     return None if case.get("mode") != "fix" else (1 if case.get("k") is None else case["k"])
 
 
-def _k_fix0(case, msg):
-    return case.get("mode") == "fix" and case.get("k") == 0 and spec_step(case["utts"], None, {})[0]
 
 
 def _rows(utts):
@@ -1116,6 +1114,10 @@ def _k_rcount_emptyseg(case, msg):
 def _k_total_tokens(case, msg):
     refs = [u["ref"] for u in case["utts"] if "ref" in u]
     return bool(refs) and all(r["s"][0] == 0 for r in refs) and "total_tokens" in msg and "differs from the recount" in msg
+
+
+def _k_fix0(case, msg):
+    return case.get("mode") == "fix" and case.get("k") == 0 and spec_step(case["utts"], None, {})[0] and not _k_rcount_emptyseg(case, msg) and not _k_total_tokens(case, msg)
 
 
 _OK = sp("float32", [2, 2])
